@@ -101,7 +101,7 @@ def effects_pure(prog, f, nfields, eff_mut):
 
 def run(ctx, rep):
     prog = ctx.program("default")
-    rep.configs.append("default")
+    rep.configs.append(getattr(ctx, "alias", "default"))
     impls = prog.impls_of_trait(TRANSFORM)
     rep.floor("R07.1", "Transform impls", len(impls), 12)
     seen = set()
